@@ -7,6 +7,7 @@ import props_router
 import props_locale
 import props_path
 import props_file
+import props_pool
 SPECS = {
     "C01": props_resource.C01,
     "C02": props_resource.C02,
@@ -23,7 +24,9 @@ SPECS = {
     "C19": props_locale.C19,
     "C18": props_path.C18,
     "C17": props_file.C17,
+    "C07": props_pool.C07,
+    "C08": props_pool.C08,
 }
 # specs that can be run (./check) but are not claimed in MANIFEST.json yet
-IN_PROGRESS = set()
+IN_PROGRESS = {"C07", "C08"}
 NOT_CLAIMED = {}
